@@ -1,4 +1,4 @@
-(* JsExpr/Sound.v — whatever the Pratt model accepts is a spelling of the returned tree ([spells true]),
+(* JsExpr/Sound.v — whatever the Pratt model accepts is a spelling of the returned tree ([spells]),
    the consumed tokens are a prefix of the input, and the tree has at least the requested level. *)
 From Coq Require Import ZifyBool.
 From Verif Require Import Common.Base Common.Tactics Gen.PrattTable JsExpr.Syntax JsExpr.Pratt JsExpr.Spec JsExpr.TableFacts.
@@ -40,52 +40,51 @@ Definition group_body (l : list expr) : expr :=
   | _ => EComma l
   end.
 
-(* arguments that continue a comma expression x *)
-Lemma args_extend q : forall ats l, spells_args q ats l ->
-  forall xs x km0, spells q true xs x -> ty km0 = tt_CommaToken -> l <> [] ->
-  exists ts kc, (ats = ts ++ [kc] \/ exists km, ats = ts ++ [km; kc] /\ ty km = tt_CommaToken) /\
-                ty kc = tt_CloseParenToken /\
-                spells q true (xs ++ km0 :: ts) (fold_left comma_snoc l x).
+(* ---- the cover grammar without '=>': a non-empty list without a trailing comma -------------------------------- *)
+
+Inductive spells_cover : list token -> list expr -> Prop :=
+| SC_last ts a kc :
+    spells true ts a -> prec_OpAssign <= lvl a -> ty kc = tt_CloseParenToken ->
+    spells_cover (ts ++ [kc]) [a]
+| SC_more ts a km rest l :
+    spells true ts a -> prec_OpAssign <= lvl a -> ty km = tt_CommaToken ->
+    spells_cover rest l ->
+    spells_cover (ts ++ km :: rest) (a :: l).
+
+Lemma cover_extend : forall ats l, spells_cover ats l ->
+  forall xs x km0, spells true xs x -> ty km0 = tt_CommaToken ->
+  exists ts kc, ats = ts ++ [kc] /\ ty kc = tt_CloseParenToken /\
+                spells true (xs ++ km0 :: ts) (fold_left comma_snoc l x).
 Proof.
-  induction 1 as [kc Hkc|ts a kc Ha Hl Hkc|ts a km rest l Ha Hl Hkm Hrest IH]; intros xs x km0 Hx Hk0 Hne.
-  - contradiction.
-  - exists ts, kc. split; [left; reflexivity|]. split; [exact Hkc|]. cbn [fold_left].
+  induction 1 as [ts a kc Ha Hl Hkc|ts a km rest l Ha Hl Hkm Hrest IH]; intros xs x km0 Hx Hk0.
+  - exists ts, kc. split; [reflexivity|]. split; [exact Hkc|]. cbn [fold_left].
     destruct (sview_comma true) as [pL [pS [pN Ev]]]. rewrite <- Hk0 in Ev.
     pose proof (sfact_all true (ty km0)) as HF. rewrite Ev in HF. cbn [sfact] in HF. b2p.
-    eapply SP_comma; eauto. unfold pratt_args_level in Hl. lia.
+    eapply SP_comma; eauto. lia.
   - destruct (sview_comma true) as [pL [pS [pN Ev]]]. rewrite <- Hk0 in Ev.
     pose proof (sfact_all true (ty km0)) as HF. rewrite Ev in HF. cbn [sfact] in HF. b2p.
-    assert (Hxa : spells q true (xs ++ km0 :: ts) (comma_snoc x a)).
-    { eapply SP_comma; eauto. unfold pratt_args_level in Hl. lia. }
-    destruct l as [|b l].
-    + inversion Hrest; subst.
-      exists ts, kc. split; [right; exists km; split; [reflexivity|exact Hkm]|]. split; [assumption|]. exact Hxa.
-    + destruct (IH (xs ++ km0 :: ts) (comma_snoc x a) km Hxa Hkm) as [ts2 [kc [Hsh [Hkc Hsp]]]]; [discriminate|].
-      exists (ts ++ km :: ts2), kc. split.
-      * destruct Hsh as [E|[km2 [E Hk2]]]; [left|right; exists km2; split; [|exact Hk2]]; rewrite E; rewrite <- app_assoc; reflexivity.
-      * split; [exact Hkc|]. cbn [fold_left]. replace (xs ++ km0 :: ts ++ km :: ts2) with ((xs ++ km0 :: ts) ++ km :: ts2)
-          by (rewrite <- app_assoc; reflexivity). exact Hsp.
+    assert (Hxa : spells true (xs ++ km0 :: ts) (comma_snoc x a)).
+    { eapply SP_comma; eauto. lia. }
+    destruct (IH (xs ++ km0 :: ts) (comma_snoc x a) km Hxa Hkm) as [ts2 [kc [Hsh [Hkc Hsp]]]].
+    exists (ts ++ km :: ts2), kc. split; [rewrite Hsh; rewrite <- app_assoc; reflexivity|].
+    split; [exact Hkc|]. cbn [fold_left]. replace (xs ++ km0 :: ts ++ km :: ts2) with ((xs ++ km0 :: ts) ++ km :: ts2)
+      by (rewrite <- app_assoc; reflexivity). exact Hsp.
 Qed.
 
-Lemma args_group q ats l : spells_args q ats l -> l <> [] ->
-  exists ts kc, (ats = ts ++ [kc] \/ exists km, ats = ts ++ [km; kc] /\ ty km = tt_CommaToken) /\
-                ty kc = tt_CloseParenToken /\
-                spells q true ts (group_body l) /\ prec_OpExpr <= lvl (group_body l).
+Lemma cover_group ats l : spells_cover ats l ->
+  exists ts kc, ats = ts ++ [kc] /\ ty kc = tt_CloseParenToken /\
+                spells true ts (group_body l) /\ prec_OpExpr <= lvl (group_body l).
 Proof.
-  intros H Hne. inversion H as [kc Hkc|ts a kc Ha Hl Hkc|ts a km rest l' Ha Hl Hkm Hrest]; subst.
-  - contradiction.
-  - exists ts, kc. split; [left; reflexivity|]. split; [exact Hkc|]. split; [exact Ha|].
-    cbn [group_body]. unfold pratt_args_level in Hl. pose proof prec_order. lia.
-  - destruct l' as [|b l'].
-    + inversion Hrest; subst.
-      exists ts, kc. split; [right; exists km; split; [reflexivity|exact Hkm]|]. split; [assumption|]. split; [exact Ha|].
-      cbn [group_body]. unfold pratt_args_level in Hl. pose proof prec_order. lia.
-    + destruct (args_extend q _ _ Hrest ts a km Ha Hkm) as [ts2 [kc [Hsh [Hkc Hsp]]]]; [discriminate|].
-      exists (ts ++ km :: ts2), kc. split.
-      * destruct Hsh as [E|[km2 [E Hk2]]]; [left|right; exists km2; split; [|exact Hk2]]; rewrite E; rewrite <- app_assoc; reflexivity.
-      * split; [exact Hkc|]. rewrite fold_comma_start in Hsp.
-        -- split; [exact Hsp|]. cbn [group_body lvl]. lia.
-        -- apply lvl_not_comma. exact Hl.
+  intros H. inversion H as [ts a kc Ha Hl Hkc|ts a km rest l' Ha Hl Hkm Hrest]; subst.
+  - exists ts, kc. split; [reflexivity|]. split; [exact Hkc|]. split; [exact Ha|].
+    cbn [group_body]. pose proof prec_order. lia.
+  - destruct (cover_extend _ _ Hrest ts a km Ha Hkm) as [ts2 [kc [Hsh [Hkc Hsp]]]].
+    exists (ts ++ km :: ts2), kc. split; [rewrite Hsh; rewrite <- app_assoc; reflexivity|].
+    split; [exact Hkc|].
+    destruct l' as [|b l']; [inversion Hrest|].
+    rewrite fold_comma_start in Hsp.
+    + split; [exact Hsp|]. cbn [group_body lvl]. lia.
+    + apply lvl_not_comma. exact Hl.
 Qed.
 
 (* ---- the main induction ------------------------------------------------------------------------------------- *)
@@ -93,18 +92,27 @@ Qed.
 Definition sound_expr (f : nat) : Prop :=
   forall inf prec ts t rest,
     parse_expr f inf prec ts = Ok (t, rest) -> prec <= prec_OpUnary ->
-    exists pre, ts = pre ++ rest /\ spells true inf pre t /\ prec <= lvl t.
+    exists pre, ts = pre ++ rest /\ spells inf pre t /\ prec <= lvl t.
 
 Definition sound_suffix (f : nat) : Prop :=
   forall inf left prec ts t rest pre0,
     parse_suffix f inf left prec (lvl left) ts = Ok (t, rest) -> prec <= prec_OpUnary -> prec <= lvl left ->
-    spells true inf pre0 left ->
-    exists pre, ts = pre ++ rest /\ spells true inf (pre0 ++ pre) t /\ prec <= lvl t.
+    spells inf pre0 left ->
+    exists pre, ts = pre ++ rest /\ spells inf (pre0 ++ pre) t /\ prec <= lvl t.
+
+Definition next_close (ts : list token) : bool :=
+  match ts with k :: _ => ty k =? tt_CloseParenToken | [] => false end.
+
+Definition sound_cover (f : nat) : Prop :=
+  forall ts acc tc l rest,
+    parse_cover f ts acc tc = Ok (l, false, rest) ->
+    exists pre l', ts = pre ++ rest /\ l = rev acc ++ l' /\
+      ((l' = [] /\ tc = false /\ exists kc, pre = [kc] /\ ty kc = tt_CloseParenToken) \/ spells_cover pre l').
 
 Definition sound_args (f : nat) : Prop :=
   forall ts acc l rest,
     parse_args f ts acc = Ok (l, rest) ->
-    exists pre l', ts = pre ++ rest /\ l = rev acc ++ l' /\ spells_args true pre l'.
+    exists pre l', ts = pre ++ rest /\ l = rev acc ++ l' /\ spells_args pre l'.
 
 Lemma app_assoc4 {A} (a : list A) b c d : (a ++ b :: c) ++ d = a ++ b :: c ++ d.
 Proof. rewrite <- app_assoc. reflexivity. Qed.
@@ -112,15 +120,15 @@ Proof. rewrite <- app_assoc. reflexivity. Qed.
 Ltac list_eq := repeat first [rewrite <- app_assoc | progress (cbn [app])]; reflexivity.
 Ltac list_cast H :=
   match type of H with
-  | spells _ _ ?a _ => match goal with |- spells _ _ ?b _ => replace b with a by list_eq; exact H end
+  | spells _ ?a _ => match goal with |- spells _ ?b _ => replace b with a by list_eq; exact H end
   end.
 Ltac finish H Hle := split; [list_eq|]; split; [list_cast H|exact Hle].
 
 Ltac ret_left H := inversion H; subst; exists []; rewrite ?app_nil_r; repeat split; auto.
 
-Lemma sound_all f : sound_expr f /\ sound_suffix f /\ sound_args f.
+Lemma sound_all f : sound_expr f /\ sound_suffix f /\ sound_args f /\ sound_cover f.
 Proof.
-  induction f as [|f [IHe [IHs IHa]]].
+  induction f as [|f [IHe [IHs [IHa IHc]]]].
   { repeat split; intros *; cbn; discriminate. }
   pose proof prec_order as PO.
   assert (He : sound_expr (S f)).
@@ -138,10 +146,10 @@ Proof.
       apply rbind_ok in H. destruct H as [[x r] [Hx H]].
       destruct (IHe inf pS rest0 x r Hx) as [prx [E [Hsx Hlx]]]; [lia|].
       assert (Hlv : lvl (EUnary pO x) = pN).
-      { cbn [lvl]. destruct (is_postfix_op pO); [discriminate|]. lia. }
+      { cbn [lvl]. destruct (is_update_op pO); lia. }
       rewrite <- Hlv in H.
       destruct (IHs inf (EUnary pO x) prec r t rest (k :: prx) H Hp) as [pre [E2 [Hs Hle]]].
-      + lia.
+      + cbn [lvl]. destruct (is_update_op pO); lia.
       + eapply SP_prefix; eauto.
       + exists (k :: prx ++ pre). subst rest0 r. finish Hs Hle.
     - (* parenthesis *)
@@ -154,20 +162,26 @@ Proof.
         * cbn [lvl]. lia.
         * eapply SP_group; eauto.
         * exists ((k :: prx ++ [kc]) ++ pre). subst rest0 r r'. finish Hs Hle.
-      + apply rbind_ok in H. destruct H as [[args r] [Ha H]]. rewrite parse_cover_args in Ha.
-        destruct (IHa rest0 [] args r Ha) as [pra [l' [E [El Hsa]]]]. cbn in El. subst l'.
-        assert (Hgo : exists x, args <> [] /\ parse_suffix f inf (EGroup (group_body args)) prec primary r = Ok (t, rest) /\ x = tt).
-        { exists tt. destruct r as [|a r0].
-          - destruct args as [|x [|y l]]; [discriminate| |]; (split; [discriminate|]); auto.
-          - destruct (ty a =? tt_ArrowToken); [discriminate|].
-            destruct args as [|x [|y l]]; [discriminate| |]; (split; [discriminate|]); auto. }
-        destruct Hgo as [_ [Hne [H' _]]].
-        destruct (args_group true pra args Hsa Hne) as [ts0 [kc [Hsh [Hkc [Hsb Hlb]]]]].
+      + apply rbind_ok in H. destruct H as [[[args tc] r] [Ha H]].
+        assert (Hgo : args <> [] /\ tc = false /\ parse_suffix f inf (EGroup (group_body args)) prec primary r = Ok (t, rest)).
+        { assert (Hb : match args with
+                       | [] => Fail
+                       | _ => if tc then Fail else
+                              match args with
+                              | [x] => parse_suffix f inf (EGroup x) prec primary r
+                              | _ => parse_suffix f inf (EGroup (EComma args)) prec primary r
+                              end
+                       end = Ok (t, rest)).
+          { destruct r as [|a r0]; [exact H|]. destruct (ty a =? tt_ArrowToken); [discriminate|exact H]. }
+          destruct args as [|x [|y l]]; [discriminate| |]; destruct tc; try discriminate;
+            (split; [discriminate|]); split; auto. }
+        destruct Hgo as [Hne [Etc H']]. subst tc.
+        destruct (IHc rest0 [] false args r Ha) as [pra [l' [E [El Hsa]]]]. cbn in El. subst l'.
+        destruct Hsa as [[El _]|Hsa]; [contradiction|].
+        destruct (cover_group pra args Hsa) as [ts0 [kc [Hsh [Hkc [Hsb Hlb]]]]].
         change primary with (lvl (EGroup (group_body args))) in H'.
-        assert (Hg : spells true inf (k :: pra) (EGroup (group_body args))).
-        { destruct Hsh as [Esh|[km [Esh Hkm]]]; rewrite Esh.
-          - eapply SP_group; eauto. lia.
-          - eapply SP_group_quirk; eauto. lia. }
+        assert (Hg : spells inf (k :: pra) (EGroup (group_body args))).
+        { rewrite Hsh. eapply SP_group; eauto. lia. }
         destruct (IHs inf (EGroup (group_body args)) prec r t rest (k :: pra) H' Hp) as [pre [E2 [Hs Hle]]].
         * cbn [lvl]. lia.
         * exact Hg.
@@ -227,7 +241,7 @@ Proof.
       destruct (lt k || (pL <? prec)) eqn:EL. { ret_left H. }
       apply orb_false_iff in EL. destruct EL as [Elt EL].
       destruct (lvl left <? pR) eqn:ER; [discriminate|].
-      assert (Hlv : lvl (EUnary pO left) = pN). { cbn [lvl]. rewrite H2. lia. }
+      assert (Hlv : lvl (EUnary pO left) = pN). { cbn [lvl]. rewrite (postfix_is_update _ H2). lia. }
       rewrite <- Hlv in H.
       destruct (IHs inf (EUnary pO left) prec rest0 t rest (pre0 ++ [k]) H Hp) as [pre [E2 [Hsp Hle]]].
       + lia.
@@ -276,10 +290,30 @@ Proof.
     destruct (IHa r2 (a :: acc) l rest H) as [pra [l' [E2 [El Hsa]]]].
     exists (prx ++ c :: pra), (a :: l'). split; [rewrite E, E2; list_eq|].
     split; [rewrite El; cbn [rev]; list_eq|]. apply SA_more; auto. }
+  assert (Hc : sound_cover (S f)).
+  { intros ts acc tc l rest H. rewrite parse_cover_step in H. destruct ts as [|k r]; [discriminate|].
+    destruct (ty k =? tt_CloseParenToken) eqn:EC.
+    { inversion H; subst. apply Z.eqb_eq in EC. exists [k], []. rewrite app_nil_r. split; [reflexivity|]. split; [reflexivity|].
+      left. split; [reflexivity|]. split; [reflexivity|]. exists k. auto. }
+    destruct (ty k =? tt_EllipsisToken); [discriminate|].
+    apply rbind_ok in H. destruct H as [[a r1] [Hx H]].
+    destruct (IHe true prec_OpAssign (k :: r) a r1 Hx) as [prx [E [Hsx Hlx]]]; [lia|].
+    destruct r1 as [|c r2]; [discriminate|].
+    destruct (ty c =? tt_CommaToken) eqn:EM.
+    { apply Z.eqb_eq in EM.
+      destruct (IHc r2 (a :: acc) _ l rest H) as [pra [l' [E2 [El Hsa]]]].
+      exists (prx ++ c :: pra), (a :: l'). split; [rewrite E, E2; list_eq|].
+      split; [rewrite El; cbn [rev]; list_eq|]. right.
+      destruct Hsa as [[_ [Etc [kc [Epre Hkc]]]]|Hsa].
+      - exfalso. subst pra r2. cbn [app] in Etc. rewrite Hkc, Z.eqb_refl in Etc. discriminate.
+      - apply SC_more; auto. }
+    destruct (ty c =? tt_CloseParenToken) eqn:EC2; [|discriminate].
+    inversion H; subst. apply Z.eqb_eq in EC2. exists (prx ++ [c]), [a]. split; [rewrite E; list_eq|].
+    split; [list_eq|]. right. apply SC_last; auto. }
   auto.
 Qed.
 
 Theorem parse_sound inf prec ts t rest :
   parse inf prec ts = Ok (t, rest) -> prec <= prec_OpUnary ->
-  exists pre, ts = pre ++ rest /\ spells true inf pre t /\ prec <= lvl t.
+  exists pre, ts = pre ++ rest /\ spells inf pre t /\ prec <= lvl t.
 Proof. intros H. exact (proj1 (sound_all _) _ _ _ _ _ H). Qed.
